@@ -62,3 +62,43 @@ func VerifH_C04_Automorphisms() {
 	}
 	vCover("C04-automorphisms-reached")
 }
+
+// The batch generator of Galois keys honours the whole key parameterisation: every key of the batch has the levels
+// and the power-of-two digit decomposition that were asked for - the shape of a key generated alone - and works.
+func VerifH_C04_GaloisKeyBatch() {
+	vConfig("algebraic-samplers", "1")
+	for _, set := range []int{0, 1} {
+		c := VerifSetup_Ctx(set, vIsAlgebraic())
+		c.Kgen.GenSecretKey(c.Sk)
+		params := c.Params
+		maxQ, maxP := params.MaxLevelQ(), params.MaxLevelP()
+		if maxP > 0 {
+			maxP = 0
+		}
+		evkp := EvaluationKeyParameters{LevelQ: vIntP(maxQ), LevelP: vIntP(maxP), BaseTwoDecomposition: vIntP(3)}
+		gals := []uint64{params.GaloisElement(1), params.GaloisElement(-2)}
+		batch := c.Kgen.GenGaloisKeysNew(gals, c.Sk, evkp)
+		vAssert(len(batch) == len(gals), "set"+vItoa(set)+"-batch-has-one-key-per-element")
+		for i, gk := range batch {
+			tag := "set" + vItoa(set) + "-batch-key" + vItoa(i)
+			alone := c.Kgen.GenGaloisKeyNew(gals[i], c.Sk, evkp)
+			vAssert(gk.GaloisElement == gals[i], tag+"-is-for-the-requested-element")
+			vAssert(gk.BaseTwoDecomposition == alone.BaseTwoDecomposition && gk.LevelQ() == alone.LevelQ() && gk.LevelP() == alone.LevelP(), tag+"-has-the-requested-levels-and-digit-width")
+			same := len(gk.Value) == len(alone.Value)
+			if same {
+				for j := range gk.Value {
+					same = same && len(gk.Value[j]) == len(alone.Value[j])
+				}
+			}
+			vAssert(same, tag+"-has-the-shape-of-a-key-generated-alone")
+			eval := c.Eval.WithKey(NewMemEvaluationKeySet(nil, gk))
+			r := params.RingQ().AtLevel(maxQ)
+			ct := vAtomCiphertext(c, 1, maxQ, "c")
+			want := vApplyAut(r, vDecrypt(c, c.Dec, ct).Value, gals[i], params.NTTFlag())
+			out := NewCiphertext(params, 1, maxQ)
+			vAssert(eval.Automorphism(ct, gals[i], out) == nil, tag+"-Automorphism-no-error")
+			vAssertNoiseFree(r, vDecrypt(c, c.Dec, out).Value, want, params.NTTFlag(), 42, tag+"-decrypts-to-sigma-of-the-plaintext")
+		}
+	}
+	vCover("C04-galois-batch-reached")
+}
